@@ -53,7 +53,9 @@ META = {
         "(both Kids orders), attributes on the root only or on every 100th level, and a variant whose deepest Kids point back at the root and the middle node; judged "
         "through create_pages (order, attributes, getobj budget), get_pages with 8 page_numbers/maxpages pairs and extract_text (distinct label per page); the reference is iterative. "
         "geometry part: 13 Rotate values x 6 MediaBoxes (3 of them given by reversed corners) x {on page, on parent} x CropBox {absent, present} x 3 spellings, "
-        "through PDFPageAggregator(laparams=None) and extract_pages; the rotation= argument of extract_text_to_fp over {0,90,180,270,360,-90,450} x the 13 page Rotate values x 6 MediaBoxes, observed through the XML output parsed back (page box, a filled rectangle, the glyph) against (Rotate + rotation) mod 360. selection part: 3 four-page trees x 64 page_numbers sets "
+        "through PDFPageAggregator(laparams=None) and extract_pages; the rotation= argument of extract_text_to_fp over {0,90,180,270,360,-90,450} x the 13 page Rotate values x 6 MediaBoxes, observed through the XML output parsed back (page box, a filled rectangle, the glyph) against (Rotate + rotation) mod 360. carry-over part: two pages with different page matrices through one interpreter (process_page and extract_pages), page 1 ending with one of 6 unbalanced "
+        "constructs (q, q..cm, an open text object, an unpainted path), page 2 starting with one of 7 prefixes (stray Q's, f, ET): page 2 must sit in its own coordinate system and show only its own glyph. "
+        "selection part: 25 further page_numbers containers (lists with repeated/unsorted/negative/out-of-range entries, tuples, ranges, dict keys, frozensets) x maxpages {0,2,3,5}; 3 four-page trees x 64 page_numbers sets "
         "(all subsets of {0..4}, with and without an out-of-range 7) x maxpages 0..5 x {get_pages, extract_text, extract_pages}. "
         "A case is one document (or one selection call); non-trivial = at least one page takes at least one attribute from an "
         "ancestor, or Rotate != 0 / MediaBox origin != 0, or a non-empty selection. states/transitions = choice-tree nodes/edges "
@@ -274,9 +276,31 @@ def observe_selection(data: bytes, entry: str, S: Any, m: int) -> Any:
     raise ValueError(entry)
 
 
+def make_container(kind: str, S: Any) -> Any:
+    """the page_numbers argument: any Container[int]"""
+    if S is None:
+        return None
+    if kind == "set":
+        return set(S)
+    if kind == "frozenset":
+        return frozenset(S)
+    if kind == "list":
+        return list(S)
+    if kind == "tuple":
+        return tuple(S)
+    if kind == "dictkeys":
+        return {i: str(i) for i in S}.keys()
+    if kind == "range":
+        a, b, c = S  # here S holds the range arguments
+        return range(a, b, c)
+    raise ValueError(kind)
+
+
 def judge_selection(case: Dict[str, Any]) -> List[Tuple[str, Any, Any, str]]:
     S = case["S"]
-    Sarg: Any = None if S is None else (set(S) if case["container"] == "set" else list(S))
+    Sarg: Any = make_container(case["container"], S)
+    if case["container"] == "range":
+        S = tuple(Sarg)
     m = case["m"]
     idx = selection_model(case["npages"], S, m)
     obs = observe_selection(case["data"], case["entry"], Sarg, m)
@@ -777,6 +801,123 @@ def fam_selection(st, tier, ti, entry):
                     first = False
 
 
+CONTAINERS = (
+    ("list", (0, 1, 2, 2, 3)), ("list", (1, 1, 3)), ("list", (2, 2, 2)), ("list", (3, 1, 0)), ("list", (2, 0, 3, 1)),
+    ("list", (-1, 0, 2)), ("list", (7, 1)), ("list", (1, 9, 2)), ("list", (-3, 3)), ("list", ()),
+    ("tuple", (2, 0)), ("tuple", (0, 0, 3)), ("tuple", (1, 2, 5)),
+    ("range", (1, 3, 1)), ("range", (0, 4, 2)), ("range", (3, -1, -1)), ("range", (2, 9, 1)), ("range", (0, 0, 1)),
+    ("dictkeys", (1, 3)), ("dictkeys", (3, 0)), ("dictkeys", ()),
+    ("frozenset", (0, 2)), ("frozenset", (1, 8)), ("set", (3, 1)), ("set", (-1, 2)),
+)
+
+
+def fam_containers(st, tier, ti, entry):
+    """page_numbers given as lists with repeated / unsorted / negative / out-of-range entries, tuples, ranges, dict
+    keys, (frozen)sets: selection means ``index in page_numbers`` whatever the container"""
+    nodes = selection_trees()[ti]
+    attrs = base_attrs(len(nodes))
+    data = pt.build(nodes, attrs)
+    pages, _ = pt.walk(nodes, attrs)
+    page_nodes = [i for i, _ in pages]
+    first = True
+    for kind, S in CONTAINERS:
+        for m in (0, 2, 3, 5):
+            case = {"part": "selection", "data": data, "entry": entry, "S": S, "m": m, "container": kind, "npages": 4, "page_nodes": page_nodes}
+            res = judge_selection(case)
+            for sig, e, o, what in res:
+                st.violation(sig, case, e, o, what)
+            members = tuple(make_container(kind, S))
+            idx = selection_model(4, members, m)
+            st.case(None, nontrivial=True, outcome=("selc", kind, tuple(idx), bool(res)))
+            st.states += 1
+            st.transitions += 1
+            st.traces += 1
+            if first:
+                st.sample({"selection": True, "entry": entry, "tree": ti, "container": kind, "page_numbers": S, "maxpages": m, "expected": idx})
+                first = False
+
+
+CARRY_SUFFIXES = (b"q", b"q q 2 0 0 2 5 5 cm", b"q 1 0 0 1 7 9 cm q", b"BT /F1 8 Tf 50 50 Td 3 Tc", b"10 10 m 50 50 l 50 10 l", b"q 0 1 -1 0 3 4 cm BT 12 TL")
+CARRY_PREFIXES = (b"", b"Q", b"Q Q", b"Q Q Q", b"f", b"Q f", b"ET")
+CARRY_PAGES = (
+    (((0, 0, 200, 100), 0), ((10, 20, 210, 120), 90)),
+    (((10, 20, 210, 120), 180), ((0, 0, 200, 100), 0)),
+    (((-10, -20, 90, 80), 270), ((10, 20, 210, 120), 0)),
+    (((10, 20, 210, 120), 90), ((-10, -20, 90, 80), 90)),
+)
+
+
+def judge_carry(case: Dict[str, Any]) -> List[Tuple[str, Any, Any, str]]:
+    """Two pages through one interpreter: whatever page 1 leaves open (saved graphics states, a text object, an
+    unpainted path), page 2 is drawn in its own page coordinate system and shows only its own content."""
+    from pdfminer.converter import PDFPageAggregator
+    from pdfminer.high_level import extract_pages
+    from pdfminer.layout import LTChar, LTContainer, LTCurve, LTImage
+    from pdfminer.pdfinterp import PDFPageInterpreter, PDFResourceManager
+    from pdfminer.pdfpage import PDFPage
+
+    exp, _ = expected_pages(case["nodes"], case["attrs"])
+
+    def flat(o):
+        if isinstance(o, LTChar):
+            yield o
+        elif isinstance(o, LTContainer):
+            for x in o:
+                yield from flat(x)
+        else:
+            yield o
+
+    runs = []
+    try:
+        rsrc = PDFResourceManager()
+        dev = PDFPageAggregator(rsrc, laparams=None)
+        interp = PDFPageInterpreter(rsrc, dev)
+        low = []
+        for p in PDFPage.get_pages(io.BytesIO(case["data"])):
+            interp.process_page(p)
+            low.append(dev.get_result())
+        runs.append(("process_page", low))
+        runs.append(("extract_pages", list(extract_pages(io.BytesIO(case["data"])))))
+    except Exception as e:  # noqa
+        return [(f"C04/carry-over:exception:{exc_sig(e)}", "two pages", exc_sig(e), "rendering two pages through one interpreter raised")]
+    for name, lays in runs:
+        if len(lays) != len(exp):
+            return [(f"C04/carry-over:page-count", len(exp), len(lays), f"{name}: wrong number of pages")]
+        for k, (e, lay) in enumerate(zip(exp, lays)):
+            items = list(flat(lay))
+            chars = [(c.get_text(), c.fontname, tuple(c.matrix)) for c in items if isinstance(c, LTChar)]
+            r = judge_render(e, (tuple(lay.bbox), chars), "carry-over:")
+            if r:
+                sig, a, b, what = r[0]
+                return [(sig, a, b, f"{name}, page {k + 1} after a page that ends with {case['suffix']!r}, own prefix {case['prefix']!r}: {what}")]
+            other = [type(x).__name__ for x in items if isinstance(x, (LTCurve, LTImage))]
+            if k == 1 and other:
+                return [("C04/carry-over:foreign-content", [], other, f"{name}: page 2 shows a path that page 1 constructed but did not paint")]
+    return []
+
+
+def fam_carry(st, tier, pi):
+    nodes = selection_trees()[0][:3]
+    nodes = [dict(nodes[0], kids=[1, 2]), dict(nodes[1]), dict(nodes[2])]
+    (mb1, r1), (mb2, r2) = CARRY_PAGES[pi]
+    first = True
+    for suffix in CARRY_SUFFIXES:
+        for prefix in CARRY_PREFIXES:
+            attrs: List[Dict[str, Any]] = [{"Resources": "A"}, {"MediaBox": mb1, "Rotate": r1}, {"MediaBox": mb2, "Rotate": r2}]
+            data = pt.build(nodes, attrs, extra={1: (b"", suffix), 2: (prefix, b"")})
+            case = {"part": "carry", "nodes": nodes, "attrs": attrs, "suffix": suffix, "prefix": prefix, "data": data}
+            res = judge_carry(case)
+            for sig, e, o, what in res:
+                st.violation(sig, case, e, o, what)
+            st.case(None, nontrivial=bool(prefix), outcome=("carry", pi, suffix, prefix, bool(res)))
+            st.states += 1
+            st.transitions += 2
+            st.traces += 1
+            if first:
+                st.sample({"carry_over": True, "page1": (mb1, r1, suffix), "page2": (mb2, r2, prefix)})
+                first = False
+
+
 # ----------------------------------------------------------------------- shards
 def shards(tier):
     b = BOUNDS[tier]
@@ -808,6 +949,8 @@ def shards(tier):
         out += [("res", n, lo, min(lo + step, nt)) for lo in range(0, nt, step)]
     out += [("rotarg", mi) for mi in range(len(MEDIABOX_POOL) + len(MEDIABOX_REVERSED))]
     out += [("deep", pi) for pi in range(len(deep_params()))]
+    out += [("carry", pi) for pi in range(len(CARRY_PAGES))]
+    out += [("selc", ti, entry) for ti in range(3) for entry in ("get_pages", "extract_text", "extract_pages")]
     out += [("sel", ti, entry) for ti in range(3) for entry in ("get_pages", "extract_text", "extract_pages")]
     return out
 
@@ -853,6 +996,10 @@ def run_shard(shard, tier, st):
             fam_cycle(st, tier, n, ti)
     elif fam == "rotarg":
         fam_rotation(st, tier, shard[1])
+    elif fam == "carry":
+        fam_carry(st, tier, shard[1])
+    elif fam == "selc":
+        fam_containers(st, tier, shard[1], shard[2])
     elif fam == "deep":
         fam_deep(st, tier, shard[1])
     elif fam == "res":
@@ -882,6 +1029,8 @@ def replay(case):
         if case["S"] is not None:
             case["S"] = tuple(case["S"])
         res = judge_selection(case)
+    elif part == "carry":
+        res = judge_carry(case)
     elif part == "geometry":
         res = judge_geometry(case)
     elif part == "rotation":
